@@ -28,7 +28,7 @@ REGS = ["nic", "nic_improper", "nw", "sk_lin", "sk_tree", "sk_svr", "sk_fail", "
 
 
 def gen_cases(tier, seed):
-    reps = {"quick": 18, "thorough": 250}[tier]
+    reps = {"quick": 18, "thorough": 1500}[tier]
     cases = []
     for name in REGS:
         for i in range(reps):
